@@ -231,3 +231,19 @@ PROPS["C10"] = dict(
                 quick=dict(shards=32, timeout=1200, env=dict(VERIF_C10_STRIDE=12)),
                 thorough=dict(shards=32, timeout=14000, env=dict(VERIF_C10_STRIDE=1)))],
 )
+
+PROPS["C11"] = dict(
+    level="fault_enumeration", engine="E3 session", bins=True,
+    technique="fault enumeration: silence, discard, connection write errors and local file faults injected at every message index of real transfers; bounded-time, fail-line and goroutine-leak oracles",
+    level_text="For each scenario (T = 2 s) a fault-free dry run numbers the protocol messages; the transfer is then re-run once per (direction, message index >= 1, before|after) x fault "
+               "(silence of either or both directions, write errors on the client's connection, sources shrunk or removed when the message passes; destination writes failing with ENOSPC "
+               "through a /dev/full symlink under -y). Oracle: both sides return within 3*T+5 s of the fault (the client's bound is 65 s while it has not yet seen the CFG line), a side "
+               "reporting success has every file complete and identical, a side that failed locally and can still talk sent a fail line, T+2 s after both returned no new goroutine "
+               "of the client process is inside transfer code, and the server process has exited.",
+    level_note="The server's wait for the ACT line has no timeout by design, so faults start after it. Timing verdicts are re-run twice and reported only if they reproduce. The thorough tier "
+               "runs the same enumeration at stride 1 and includes the lost-CFG points; schedule perturbation (yield-instrumented build) is not part of this check yet.",
+    rule="non-trivial = the fault fired and the transfer did not simply succeed; distinct by SHA-1 of the case JSON (scenario, event, fault)",
+    tests=[dict(name="TestVF_C11", rapid=False, env=dict(VERIF_CASE_LIMIT=300),
+                quick=dict(shards=32, timeout=1800, env=dict(VERIF_C11_STRIDE=40)),
+                thorough=dict(shards=32, timeout=20000, env=dict(VERIF_C11_STRIDE=1)))],
+)
